@@ -1,6 +1,7 @@
 package worlds
 
 import (
+	"math"
 	"fmt"
 	"runtime"
 	"weak"
@@ -28,6 +29,7 @@ func init() {
 		"iter-reseek/parked-key-deleted", "iter-reseek/node-split", "iter-reseek/node-merged-away",
 		"iter-reseek/root-collapse", "iter-reseek/tree-emptied", "iter-parked-on-zero-key",
 		"iter-yields-key-inserted-beyond", "iter-exhausted-then-sticky", "iter-gen-wrap", "gc-retention-checked", "lookup-work-checked",
+		"comparator-returns-extreme-ints",
 	}
 }
 
@@ -167,6 +169,7 @@ type treeW struct {
 	isSet    bool
 	fromLess bool
 	cmpMag   bool
+	cmpExt   int // 1: the extreme ints stand for "less"/"greater", 2: MinInt for less, 1 for greater
 	order    int // 0 natural, 1 reversed, 2 coarse (k/4 classes)
 	P        int // number of positions; fills use [2, P-2)
 	off      int // added to every key: 0 or tKeyOff
@@ -338,6 +341,17 @@ func (w *treeW) cmp(a, b int) int {
 	if w.cmpMag {
 		return x - y
 	}
+	if w.cmpExt != 0 && x != y {
+		// any negative number means less and any positive one greater - the two that cannot be
+		// negated or doubled included
+		switch {
+		case x < y:
+			return math.MinInt
+		case w.cmpExt == 1:
+			return math.MaxInt
+		}
+		return 1
+	}
 	if x < y {
 		return -1
 	}
@@ -391,6 +405,11 @@ func treeWorld(r *R) {
 	w.fromLess = r.Choose(2, "cmp") == 0
 	if !w.fromLess {
 		w.cmpMag = r.Choose(2, "cmpmag") == 1
+		if !w.cmpMag {
+			if w.cmpExt = []int{0, 0, 1, 2}[r.Choose(4, "cmp-extreme")]; w.cmpExt != 0 {
+				r.Probe("comparator-returns-extreme-ints")
+			}
+		}
 	}
 	w.order = r.Choose(3, "order")
 	bl := tBoundariesQuick
